@@ -154,6 +154,76 @@ func c08r1011(p *model.Prog, r *report.Result, runLoop *ssa.Function) {
 	}
 }
 
+// c08r1314: the chunk format comes from the first basic-header byte; the remembered time stamp
+// field is only ever filled from the wire.
+func c08r1314(p *model.Prog, r *report.Result, runLoop *ssa.Function) {
+	r.Rule("C08.R13", "in ChunkComposer.RunLoop the chunk format (bootstrap[0] >> 6) is taken from the scratch buffer before any later read refills it: the load that feeds the '>> 6' is not reachable, within one iteration, from any io.ReadAtLeast into the buffer other than the first one of the iteration (the 2- and 3-byte chunk-stream-id forms re-use bootstrap[0] for the id bytes)")
+	var reads []ssa.CallInstruction
+	for _, ci := range model.AllCalls(runLoop) {
+		if o := model.CalleeObj(ci.Common()); o != nil && o.Pkg() != nil && o.Pkg().Path() == "io" && (o.Name() == "ReadAtLeast" || o.Name() == "ReadFull") {
+			reads = append(reads, ci)
+		}
+	}
+	var first ssa.CallInstruction
+	for _, c := range reads {
+		dominatesAll := true
+		for _, d := range reads {
+			if d != c && !model.InstrDominates(c, d) {
+				dominatesAll = false
+			}
+		}
+		if dominatesAll {
+			first = c
+		}
+	}
+	var fmtLoads []ssa.Instruction
+	model.EachInstr(runLoop, func(in ssa.Instruction) {
+		bo, ok := in.(*ssa.BinOp)
+		if !ok || bo.Op != token.SHR {
+			return
+		}
+		if k, isK := model.ConstInt(bo.Y); !isK || k != 6 {
+			return
+		}
+		if ld, isL := bo.X.(*ssa.UnOp); isL && ld.Op == token.MUL {
+			if ia, isIA := ld.X.(*ssa.IndexAddr); isIA {
+				if k0, isK0 := model.ConstInt(ia.Index); isK0 && k0 == 0 {
+					fmtLoads = append(fmtLoads, ld)
+				}
+			}
+		}
+	})
+	if first == nil || len(fmtLoads) == 0 {
+		r.Bad("C08.R13", fkey(runLoop, "format", "floor"), p.Pos(runLoop.Pos()), "the first read of the iteration or the format load was not found")
+	} else {
+		hdr := loopHeaderOf(runLoop, first.Block())
+		for _, ld := range fmtLoads {
+			stale := false
+			for _, rd := range reads {
+				if rd == first {
+					continue
+				}
+				if (model.PathQuery{From: rd, LoopHeader: hdr, Target: func(in ssa.Instruction) bool { return in == ld }}).Find(runLoop) != nil {
+					stale = true
+				}
+			}
+			r.Check(!stale, "C08.R13", fkey(runLoop, "format", "from-first-byte"), p.InstrPos(ld), "format taken before the buffer is refilled", "the chunk format is taken from bootstrap[0] after a later read may have overwritten it (the extra chunk-stream-id bytes of the 2- and 3-byte forms land in bootstrap[0]): for csid >= 64 the format comes from the id byte and the chunk header is parsed with the wrong layout")
+		}
+	}
+
+	r.Rule("C08.R14", "Stream.timestamp - the value a format-3 chunk that starts a new message inherits (RTMP 5.3.1.2.4) - is never stored with a constant in ChunkComposer.RunLoop: it is only filled from header bytes")
+	tsF := p.Field("pkg/rtmp", "Stream", "timestamp")
+	n := 0
+	for _, st := range model.FieldStores(runLoop, tsF) {
+		n++
+		_, isK := model.ConstInt(st.Val)
+		r.Check(!isK, "C08.R14", fkey(runLoop, "delta", "kept"), p.InstrPos(st), "filled from the wire", "the remembered time stamp / delta of the chunk stream is reset to a constant: a following message that starts with a format-3 chunk (same delta, as ffmpeg sends for constant-rate audio) gets delta 0 instead of the previous delta")
+	}
+	if n < 4 {
+		r.Bad("C08.R14", fkey(runLoop, "delta", "floor"), p.Pos(runLoop.Pos()), fmt.Sprintf("only %d stores of Stream.timestamp found", n))
+	}
+}
+
 // isEmptyTest: cond is "<something derived from the message parameter> == 0" (or != 0);
 // returns the successor index on which the message is empty.
 func isEmptyTest(fn *ssa.Function, b *ssa.BasicBlock) (int, bool) {
